@@ -265,10 +265,12 @@ MUTANTS = [
     ("C03-m10 roving index list from the first setup", G, "pre_multisetup", "mov_id.remove(ref_id[ii])", "mov_id.remove(reflist[0][ii])"),
     ("C03-m11 first setup's gain leaks: no re-basing", S, "SSI_multi_setup", "O_mov_s.append(O_movs)", "O_mov_s.append(O_mov)"),
     ("C03-m12 roving map starts at channel 0", S, "SSI_multi_setup", "range(n_ref, r)", "range(0, r - n_ref)"),
+    ("C03-m13 reference block reshaped without the transposition", G, "pre_multisetup", "np.array(ref).T.reshape(n_ref, -1)", "np.array(ref).reshape(n_ref, -1)"),
 ]
 REWRITES = [
     ("rename:C03-r01", S, "SSI_multi_setup", "O1_ref", "basis_ref"),
     ("C03-r02 matmul operator for the re-basing", S, "SSI_multi_setup", "np.dot(np.dot(O_mov, np.linalg.pinv(O_ref)), O1_ref)", "O_mov @ np.linalg.pinv(O_ref) @ O1_ref"),
     ("C03-r03 upper-case flatten order", S, "SSI_multi_setup", "mov_id = mov_id.flatten(order='f')", "mov_id = mov_id.flatten(order='F')"),
     ("C03-r04 complement by comprehension", G, "pre_multisetup", "mov_id = list(range(n_sens))", "mov_id = list(range(0, n_sens))"),
+    ("C03-r05 transposed selection without the reshape", G, "pre_multisetup", "np.array(mov).T.reshape(n_sens - n_ref, -1)", "np.array(mov).T"),
 ]
